@@ -699,6 +699,57 @@ Definition gaps (U : universe) (sps : list nat) (name : string) : list string :=
   end.
 
 (* ------------------------------------------------------------------------------------------------------------- *)
+(* Decidable hypotheses of the importability theorem (Proofs/C14_finder.v, Part H/I): is a regular package inside its domain? *)
+Definition compiled_suffixes : list string := [ext_suffix; ".abi3.so"; ".so"; ".pyc"].
+
+
+Definition is_pyi (e : entry) : bool := path_suffix (e_abs e) =? ".pyi".
+
+
+(* decidable form of no_clash, for examples *)
+Definition no_clashb (E : list entry) : bool :=
+  forallb (fun a => forallb (fun b =>
+     negb (entry_ok a && entry_ok b && lstr_eqb (e_parts a) (e_parts b) && Bool.eqb (is_pyi a) (is_pyi b))
+     || path_eqb (e_abs a) (e_abs b)) E) E.
+
+
+Fixpoint nodupb (l : list string) : bool :=
+  match l with [] => true | x :: r => negb (mem_str x r) && nodupb r end.
+
+
+Definition srcb (es : listing) : bool :=
+  forallb (fun e : string * node =>
+             negb (is_file (snd e)) ||
+             forallb (fun s => match strip_suffix (fst e) s with Some _ => false | None => true end) compiled_suffixes) es &&
+  match lookup_entry "__init__.py" es with Some (File true _) => false | _ => true end.
+
+Fixpoint tree_okb (n : node) : bool :=
+  match n with
+  | File _ _ => true
+  | Dir es => nodupb (map fst es) && srcb es && forallb (fun e : string * node => tree_okb (snd e)) es
+  end.
+
+
+Definition yields_modb (m : entry) : bool :=
+  match name_to_yield (e_rel m) with YMod p => lstr_eqb p (e_parts m) | _ => false end.
+
+Definition upb (es : list entry) : bool :=
+  forallb (fun m => forallb (fun e => negb (entry_ok m && yields_modb m && is_proper_prefix (e_parts m) (e_parts e))) es) es.
+
+
+Definition key_okb (k : list string) : bool :=
+  negb (match k with [] => true | _ => false end) &&
+  forallb (fun c => negb (c =? "") && negb (c =? "__init__") && negb (c =? "__pycache__")) k.
+
+(* is this regular package inside the domain of the importability theorem? *)
+Definition in_domain (U : universe) (i : nat) (dirc : list string) : bool :=
+  match node_at U (i, dirc), iter_regular U (i, dirc ++ ["__init__.py"]) with
+  | Some (Dir L0), Ok es => tree_okb (Dir L0) && no_clashb es && upb es
+  | _, _ => false
+  end.
+
+
+(* ------------------------------------------------------------------------------------------------------------- *)
 (* s-expression interface *)
 Fixpoint dec_node (fuel : nat) (s : sexp) : option node :=
   match fuel with
@@ -786,6 +837,20 @@ Definition run_C14 (s : sexp) : sexp :=
   | SList [SStr "gaps"; c] =>
       match dec_case c with
       | Some (u, sp, n) => SList (map SStr (gaps u sp n))
+      | None => bad_input end
+  | SList [SStr "domain"; c] =>
+      match dec_case c with
+      | Some (u, sp, n) =>
+          match g_paths u sp with
+          | Some ps =>
+              match g_find u n ps [] with
+              | FPkg (i, comps) _ =>
+                  if (last comps "" =? "__init__.py") && (2 <=? List.length comps)%nat
+                  then of_bool (in_domain u i (removelast comps)) else of_bool false
+              | _ => of_bool false
+              end
+          | None => of_bool false
+          end
       | None => bad_input end
   | SList [SStr "pyfind"; c] =>
       match dec_case c with
